@@ -37,6 +37,10 @@ TecmpPayloadPtr TECMP::Decoder::GetCaptureModulePayload(const uint8_t* payloadDa
         return {};
 
     CaptureModulePayload payload(payloadData, size);
+    // ... and so must the vendor data the generic part declares (it starts behind the 12 generic bytes)
+    if (size - 12 < payload.getVendorDataLength())
+        return {};
+
     if (payload.isValid())
         return std::make_shared<Payload>(payload);
 
